@@ -30,6 +30,9 @@ CHECKS = {
  "C04": ("exploration", "E1", "bounded-exhaustive enumeration of rank combinations / batch-shape pairs / transpose flags / alpha-beta / bias shapes on the real operators vs float64 loop reference with dot-product error bound",
          "MatMul over every pair of batch shapes (rank 0..2 quick, 0..3 thorough; broadcastable and not) x (m,k,n) in {1,2,3}^3 x vector promotion on either side; Gemm over all 4 transpose combinations x 20 (alpha,beta) pairs x (M,K,N) x 11 bias shapes (valid and invalid); LinearRegressor and Scaler over targets/features/batch/intercept/offset layouts; shape, dtype and every element within the dot-product rounding bound gamma_(2k+4)*sum|a_i b_i|; mismatches must be refused. A discrimination self-check verifies that the fills separate true semantics from swapped transpose flags / swapped alpha,beta.",
          E1NOTE, "DESIGN.md §3 C04"),
+ "C05": ("exploration", "E1", "bounded-exhaustive enumeration of convolution geometries (non-square images and kernels, strides, dilations, asymmetric pads, auto_pad modes, bias, batch/channel/kernel counts) on the real operator vs 6-loop direct convolution",
+         "1-D and 2-D convolutions over the full product of (H,W) in {2,3,4}^2, (kh,kw) in {1,2,3}^2, strides and dilations in {1,2}^2, pads in {0,1}^4 or an auto_pad mode, bias, and five (N,C,M) combinations (thorough: all of {1,2}^3 plus strides/dilations/pads to 3 and H,W to 6 pairwise); output shape by the ONNX formula and every element within the dot-product rounding bound of the direct definition; group != 1, 3-D inputs and unknown auto_pad strings must be refused. A discrimination self-check shows the fills separate the truth from a flipped kernel and from swapped begin/end pads.",
+         E1NOTE, "DESIGN.md §3 C05"),
 }
 NA_REASON = "check not built yet in this session (see DESIGN.md §7 order of construction); decidable by bounded exhaustive exploration, to be claimed once its explorer exists"
 def main():
